@@ -38,7 +38,7 @@ E1Blocks == <<Blk("e1", SlotA, R2), Blk("e1", D1 + 300, R1)>>
 Day(a, b, c, e) == NonEmpty(<<Blk("e0", SlotA, a), Blk("e0", SlotB, b), Blk("e0", SlotC, c)>>) \o e
 MCDBs ==
   CASE MCSize = "quick"    -> { Day(a, R2, c, e) : a \in {<<>>, R1}, c \in {<<>>, R2}, e \in {<<>>, E1Blocks} }
-    [] MCSize = "thorough" -> { Day(a, b, c, e) : a \in {<<>>, R1, R3}, b \in {R1, R2}, c \in {<<>>, R2, R3},
+    [] MCSize = "thorough" -> { Day(a, b, c, e) : a \in {<<>>, R1, R3}, b \in {R1, R2}, c \in {<<>>, R3},
                                                   e \in {<<>>, E1Blocks} }
     [] MCSize = "deep"     -> { Day(R1, b, c, E1Blocks) : b \in {<<>>, R2}, c \in {R2, R3} }
 
@@ -52,7 +52,7 @@ CondsT == CondsQ \cup { Ip("host", "=", V6P),
                         Or(Ip("sip", "=", V4A), Ip("sip", "=", V6P)),
                         Or(Net("dnet", "!=", N4(10, 0, 0, 0), 8), Num("proto", "=", 17)) }
 AttrSelsQ == { {"sip"}, {"dport", "proto"} }
-AttrSelsT == AttrSelsQ \cup { {"sip", "dip", "dport", "proto"}, {} }
+AttrSelsT == AttrSelsQ \cup { {"sip", "dip", "dport", "proto"} }
 Ranges == { <<D0 - 1000, D1 + DayLen>>,     \* everything
             <<SlotA, SlotB>>,               \* exact block bounds, inclusive
             <<SlotA + 1, SlotC - 1>>,       \* one second inside: first block out, midnight block out
